@@ -17,10 +17,12 @@ MRTS_T = [0.0, 4 * U, 6 * U, 8 * U, 12 * U, 16 * U, 40 * U]
 def plan(tier):
     if tier == "quick":
         specs = [([("dense", 1, 5)], TAUS_Q, MRTS_Q, True),
-                 ([("bounded", 3, 6, 9)], TAUS_Q, MRTS_Q, False)]
+                 ([("bounded", 3, 6, 9)], TAUS_Q, MRTS_Q, False),
+                 ([("near", 2, 3)], [2.0 ** -30, U], [0.0], True)]
     else:
         specs = [([("dense", 1, 7)], TAUS_T, MRTS_T, True),
-                 ([("bounded", 4, 8, 11)], TAUS_T, MRTS_T[:5], True)]
+                 ([("bounded", 4, 8, 11)], TAUS_T, MRTS_T[:5], True),
+                 ([("near", 2, 4)], [2.0 ** -30, 2.0 ** -29, U], [0.0, 2.0 ** -27], True)]
     tasks, descs = [], []
     for regimes, taus, ms, full in specs:
         tasks += pairs.regime_tasks(2, regimes, ["py", "pyx"],
@@ -195,8 +197,7 @@ def evaluate(r, trains, edges, taus, mrts, full, be, rank=()):
 
 
 def check_state(r, k, masks, task):
-    trains = [lattice.times(m) for m in masks]
-    edges = lattice.edges(k)
+    trains, edges = pairs.trains_edges(k, masks)
     ns = pairs.nspikes(masks)
     for mi, m in enumerate(task["mrts"]):
         evaluate(r, trains, edges, task["taus"], m, task["full"], task["backend"], (k, ns, mi))
